@@ -34,7 +34,7 @@ def unhx(h):
     return b"" if h == "-" else bytes.fromhex(h)
 
 
-def run_tasks(exe, tasks, timeout=3000):
+def run_tasks(exe, tasks, timeout=900):
     """each task (list of input lines) in its own process; returns list of (rc, lines, stderr)"""
     def one(lines):
         p = subprocess.run([exe], input="\n".join(lines) + "\n", stdout=subprocess.PIPE,
